@@ -129,7 +129,16 @@ def _worker(conn, repo):
         if op == "next":
             return dict(value=lock.next_counter(), counter=lock.counter)
         if op == "aexit":
-            drive(lock.__aexit__(None, None, None))
+            mode = args[0] if args else "ok"     # how the `async with` block ended
+            if mode == "raise":
+                from ebpfcat.ethercat import EtherCatError
+                exc = EtherCatError("exchange failed after its mail went out")
+            elif mode == "cancel":
+                import asyncio
+                exc = asyncio.CancelledError()
+            else:
+                exc = None
+            drive(lock.__aexit__(type(exc) if exc else None, exc, None))
             return dict(counter=lock.counter)
         if op == "close":
             lf = state.pop("lf", None)
@@ -222,6 +231,7 @@ def replay(repo, path, schedule, bytes_of, nmsgs, lo=10, n=2, pool=None):
     pool: dict reused between calls (worker processes are kept and reset)"""
     workers = pool if pool is not None else {}
     ev = []
+    modes = {}                    # how the current hold of each participant will end
     try:
         for p in sorted({s["p"] for s in schedule}):
             if p not in workers:
@@ -231,12 +241,22 @@ def replay(repo, path, schedule, bytes_of, nmsgs, lo=10, n=2, pool=None):
         for s in schedule:
             p, a = s["p"], s["a"]
             w = workers[p]
+            if a == "read":
+                modes[p] = s.get("mode") or "ok"
+            if a == "write" and w.parked == "unlock":
+                # the code ends the hold without storing the counter: the step happened without
+                # effect; whether that is acceptable is for the specification to say
+                ev.append(dict(p=p, a="write", exc="", mode=modes.get(p, ""), skipped=True, obs=[],
+                               file=file_bytes(path) or []))
+                continue
             if w.parked != a:
                 ev.append(dict(p=p, a=a, res="not-at-step", at=str(w.parked), last=repr(w.last)[:200],
+                               exc=f"the code is about to do {w.parked!r} instead of {a!r}",
+                               mode=modes.get(p, ""),
                                file=file_bytes(path) or []))
                 break
             msg = w.go()
-            e = dict(p=p, a=a, obs=msg[-1], exc="")
+            e = dict(p=p, a=a, obs=msg[-1], exc="", mode=modes.get(p, "") if a in ("write", "unlock") else s.get("mode", ""))
             if msg[0] == "done" and "exc" in msg[2]:
                 e["exc"] = msg[2]["exc"]
             if a == "open":
@@ -260,7 +280,7 @@ def replay(repo, path, schedule, bytes_of, nmsgs, lo=10, n=2, pool=None):
                         m2 = w.call("next")
                         ev.append(dict(p=p, a="next", value=m2[2].get("value", -1),
                                        exc=m2[2].get("exc", ""), file=file_bytes(path) or [], obs=[]))
-                    w.call("aexit")                      # parks before pwrite
+                    w.call("aexit", modes.get(p, "ok"))  # parks before pwrite
                 elif msg[1] == "aexit":
                     w.call("aenter")
     except Hang as h:
